@@ -8,6 +8,8 @@ import PyamgV.Proofs.ExtPairwise
 import PyamgV.Proofs.ExtC12LloydAgg
 import PyamgV.Proofs.ExtC12BalFirst
 import PyamgV.Proofs.ExtC12ZWrap
+import PyamgV.Proofs.ExtC12ZMeas
+import PyamgV.Proofs.ExtC12ZBalLoop
 
 /-! # C12 — aggregation routines return valid partitions of the strength graph
 
@@ -30,11 +32,19 @@ loop with its `ValueError` checks, `_elimination_penalty`, `_split_improvement`,
 `argsort` orders), the rebalance rounds — run by the driver (`ext_c12_ballloyd`, `ext_c12_ballloyd_agg`,
 `ext_c12_center_nodes`) and compared exactly with `balanced_lloyd_cluster`, `balanced_lloyd_aggregation`
 (replayed permutation) and the rebuilt `center_nodes` kernel on every run.
+Every pass of balanced Lloyd (extension E56): `center_nodes` preserves the invariant `Bal.Inv` of the balanced kernel (Floyd–Warshall
+soundness + predecessor invariant on grid weights, strong connectivity of the clusters on a symmetric pattern), hence EVERY
+Bellman–Ford pass of every rebalance round satisfies `Bal.Final`, and the returned cluster ids are the labels of such a pass.
 Pairwise WRAPPER (extension E56): `C12ZW.wrapper` — `pairwise_aggregation(A, matchings, theta, norm)` of aggregate.py composed from
 the models of its parts: `classical_strength_of_connection` (`C14.pubClassicalNorm`), the kernel model `ExtPw.pairwise`,
 `T_temp`, SciPy's `T @ T_temp` and the Galerkin product `T_temp.T.tocsr() @ Ac @ T_temp` (`Spmm.mul / transpose /
 galerkin`: raw arrays), `Cpts[new_cpts]`, the `break` — run by the driver (`ext_c12z_pw`) and compared exactly with the real
-wrapper (raw arrays of `T`, `Cpts`, number of aggregates of every level) on integer matrices on every run. -/
+wrapper (raw arrays of `T`, `Cpts`, number of aggregates of every level) on integer matrices on every run.
+Lloyd measure on COMPLEX values and stored zeros (extension E56): `C12ZM.applyMeasureC` (`re z`, `|z|`, `1/|z|` with `1/0 = +inf`,
+`1`, `re z - min re z`: what `lloyd_aggregation` computes after the repair 30b9508, `|z|` through an exact rational square
+root) and `C12ZM.lloydAggregationQ` (Lloyd with `+inf` edges: never relaxed by Bellman–Ford, counted by the boundary test of
+`most_interior_nodes`) — run by the driver (`ext_c12z_measure`, `ext_c12z_lloyd_agg`) and compared exactly with
+`lloyd_aggregation` on Gaussian rationals with rational modulus on every run. -/
 namespace PyamgV.Props.C12
 
 /-- ids are `-1` or `0..k-1`, `k ≤ n-1` (the `-n` sentinel never collides), unaggregated = exactly the
@@ -131,6 +141,44 @@ restate balanced_lloyd_first_pass := PyamgV.BalLloyd.first_pass_final
 `disconnected` ValueError is not raised) -/
 restate balanced_lloyd_first_pass_assigned := PyamgV.BalLloyd.first_pass_assigned
 
+/-! #### every pass of balanced Lloyd (E56): `center_nodes` hands `Bal.Inv` back to the kernel -/
+
+/-- Floyd–Warshall on one cluster (`fwRun`; weights on a grid `h·ℕ`, `0 < tol < h`): every finite `D[t,u]` is the length
+of a walk `glob t → glob u` on the grid, the diagonal is 0 with `P[t,t] = glob t`, and for `t ≠ u` the predecessor
+`P[t,u] = glob q` has a stored entry `(glob q, glob u, a)` with `D[t,q] + a ≤ D[t,u]` (the in-place triple loop breaks
+this inside a round and restores it at the end of the round) -/
+restate bal_floyd_warshall_pred := PyamgV.C12ZB.fwRun_inv
+/-- after a finished balanced Bellman–Ford pass (positive grid weights, symmetric pattern) every assigned node is joined
+to a centre of its own cluster in both directions inside the cluster: clusters are strongly connected -/
+restate bal_clusters_connected := PyamgV.C12ZB.to_centre
+/-- the update loop of `center_nodes`: `d[j] = D[i,j]`, `p[j] = P[i,j]` for exactly the members of the cluster, exact
+predecessor counts -/
+restate bal_center_nodes_update := PyamgV.C12ZB.moveCentre_full
+/-- **`center_nodes` preserves `Bal.Inv`** (left open by E34): from `Final ∧ Inv` w.r.t. the centres `x.c` to `Inv` w.r.t.
+the moved centres `y.c` (weights on a grid `>= tol`, `2 tol < h`, symmetric pattern, every node assigned) -/
+restate bal_center_nodes_inv := PyamgV.C12ZB.centerNodes_inv
+/-- the re-initialised state of a rebalance round satisfies the loop invariant `Good` (`KInv` + `Bal.Inv`) -/
+restate bal_round_start_good := PyamgV.C12ZB.good_reinit
+/-- one iteration of the Lloyd loop (kernel, the two checks, `center_nodes`) keeps `Good` -/
+restate bal_loop_step_good := PyamgV.C12ZB.good_step
+/-- **every pass of the Lloyd loop** started in a `Good` state delivers `Final` w.r.t. the centres of that moment -/
+restate balanced_lloyd_pass_final := PyamgV.C12ZB.pass_final
+/-- the state the loop returns is `center_nodes` applied to the result of one of these passes (or the unchanged start) -/
+restate balanced_lloyd_loop_result := PyamgV.C12ZB.innerLoop_result
+/-- and it is `Good` again -/
+restate balanced_lloyd_loop_good := PyamgV.C12ZB.innerLoop_good
+/-- **every Bellman–Ford pass of every rebalance round** of `balanced_lloyd_cluster` delivers `Final`: shortest distances,
+nearest-centre labels, in-cluster shortest-path predecessor chains, exact predecessor counts -/
+restate balanced_lloyd_every_pass := PyamgV.C12ZB.every_pass_final
+/-- the clusters `BalLloyd.outer` returns are the labels `m` of a pass satisfying `Final` w.r.t. the centres the last
+`center_nodes` update started from -/
+restate balanced_lloyd_outer_final := PyamgV.C12ZB.outer_final
+/-- `balanced_lloyd_cluster` end to end -/
+restate balanced_lloyd_cluster_final := PyamgV.C12ZB.cluster_final
+/-- the Boolean forms of the hypotheses the driver evaluates on the inputs of the check imply the hypotheses -/
+restate bal_sym_of_bool := PyamgV.C12ZB.symE_of_bool
+restate bal_grid_of_bool := PyamgV.C12ZB.grid_of_bool
+
 /-! non-vacuity (balanced Lloyd): the unit-weight path 0–1–2–3–4 with initial centres 0, 1: Lloyd moves the
 second centre to node 2 (first pass) and on to node 3, node 1 changes sides: `{0,1}`, `{2,3,4}` with centres
 0 and 3; the `_rebalance` call (recorded sort orders `[0,1]`, `[0,1]`) finds no profitable split -/
@@ -141,6 +189,17 @@ example : BalLloyd.cluster (1 / 100000000000000) true balP5 #[0, 1] 1 0 [] = .ok
 example : BalLloyd.cluster (1 / 100000000000000) true balP5 #[0, 1] 3 2 [(#[0, 1], #[0, 1])] =
     .ok (#[0, 0, 1, 1, 1], #[0, 3]) := by
   decide +kernel
+
+/-! non-vacuity (every pass): the hypotheses of `balanced_lloyd_cluster_final` hold for that run (`h = 1`, `tol = 1e-14`):
+the returned cluster ids `[0,0,1,1,1]` are nearest-centre labels of a finished pass -/
+example : ∃ (xl : BalLloyd.LSt) (st1 : Bal.St),
+    Bal.Final balP5.n balP5.entries (C12ZB.isCen (#[0, 1] : Array Int).size xl.c) (fun v => Bal.rdI xl.st.m v) st1 ∧
+      (#[0, 0, 1, 1, 1] : Array Int) = st1.m ∧
+      (∀ b, b < (#[0, 1] : Array Int).size → Bal.rdI xl.st.m (Bal.rdN xl.c b) = (b : Int)) :=
+  have hg := C12ZB.grid_of_bool (A := balP5) (h := 1) (tol := 1 / 100000000000000) (by decide +kernel)
+  C12ZB.cluster_final (tb := true) hg.1 hg.2.1 hg.2.2.1 hg.2.2.2 (C12ZB.symE_of_bool (by decide +kernel))
+    (centers := #[0, 1]) (by decide) (maxiter := 3) (reb := 2) (by decide)
+    (ords := [(#[0, 1], #[0, 1])]) (ce := #[0, 3]) (by decide +kernel)
 
 /-! non-vacuity (rebalancing): the unit-weight 4-cycle with centres 1, 2, 3: the first `_rebalance` call
 eliminates one cluster and splits another (the centres change), the second finds nothing to do -/
@@ -190,6 +249,40 @@ example : C12ZW.arraysOf (C12ZW.wrapper "min" (1/1000000) (1/4) 1 pois4) =
 example : C12ZW.shapeOf (C12ZW.wrapper "min" (1/1000000) (1/4) 2 pois4) = some (4, 1, #[0]) := by decide +kernel
 example : C12ZW.arraysOf (C12ZW.wrapper "min" (1/1000000) (1/4) 2 pois4) =
     some (#[0,1,2,3,4], #[0,0,0,0], #[1,1,1,1]) := by decide +kernel
+
+/-! ### the Lloyd measure on complex strength values and stored zeros (E56) -/
+
+/-- the exact rational square root the driver uses for `|z|` is sound: `sqrtQ? q = some r → 0 ≤ r ∧ r * r = q` -/
+restate lloyd_measure_sqrt_sound := PyamgV.C12ZM.sqrtQ_sound
+/-- `measure='abs'` on a complex entry: a non-negative `r` with `r² = re² + im²` -/
+restate lloyd_measure_abs := PyamgV.C12ZM.measure_abs
+/-- `measure='inv'`: `+inf` exactly at a stored zero, otherwise `1/r`, `r > 0`, `r² = re² + im²` -/
+restate lloyd_measure_inv := PyamgV.C12ZM.measure_inv
+/-- only `measure=None` (a negative real part) can trigger the `positive measure` ValueError: for `abs`, `inv`, `unit`,
+`min` every finite measured entry is non-negative -/
+restate lloyd_measure_nonneg := PyamgV.C12ZM.measure_nonneg
+/-- without `+inf` edges the two-matrix Lloyd model (pattern for the boundary test, finite edges for Bellman–Ford) is
+the Lloyd model of E18 -/
+restate lloyd_inf_model_conservative := PyamgV.C12ZM.lloydClusterX_self
+/-- when no measured entry is `+inf`, Lloyd aggregation of a complex matrix is the real model on the measured values -/
+restate lloyd_complex_is_real_model := PyamgV.C12ZM.lloydAggregationC_finite
+/-- hence the partition specification for complex strength matrices (symmetric pattern, `maxiter >= 1`, no stored zero
+under `inv`): no empty aggregate, roots in their aggregates, aggregated iff reachable, members connected to their root -/
+restate lloyd_complex_aggregation_spec := PyamgV.C12ZM.lloydAggregationC_spec
+
+/-! non-vacuity (complex Lloyd): the path 0–1–2 with values `3+4i` (both directions) and `2i`, `-2i`: `abs` gives the edge
+lengths 5, 5, 2, 2; a stored zero under `inv` is an edge of length `+inf`: node 2 is not reached from the centre 0;
+`measure=None` with a negative real part is rejected -/
+def cplxP3 : Array CRat := #[⟨3,4⟩, ⟨3,4⟩, ⟨0,2⟩, ⟨0,-2⟩]
+example : C12ZM.applyMeasureC C14.sqrtQ? "abs" cplxP3 = some #[some 5, some 5, some 2, some 2] := by decide +kernel
+example : C12ZM.applyMeasureC C14.sqrtQ? "inv" #[⟨0,2⟩, ⟨0,0⟩, ⟨-4,0⟩] = some #[some (1/2), none, some (1/4)] := by
+  decide +kernel
+example : C12ZM.lloydAggregationQ 3 #[0,1,3,4] #[1,0,2,1] cplxP3 "abs" (2/3) #[2,0,1] 2 =
+    .ok (some ((#[0,1,2,3], #[1,0,0], #[1,1,1]), #[2, 0])) := by decide +kernel
+example : C12ZM.lloydAggregationQ 3 #[0,1,3,4] #[1,0,2,1] #[⟨0,2⟩, ⟨0,2⟩, ⟨0,0⟩, ⟨0,0⟩] "inv" (1/3) #[0,2,1] 2 =
+    .ok (some ((#[0, 1, 2, 2], #[0, 0], #[1, 1]), #[0])) := by decide +kernel
+example : C12ZM.lloydAggregationQ 3 #[0,1,3,4] #[1,0,2,1] #[⟨-1,2⟩, ⟨0,2⟩, ⟨1,0⟩, ⟨1,0⟩] "None" (1/3) #[0,2,1] 2 =
+    .error "ValueError" := by decide +kernel
 
 /-! ### interface facts regenerated from the working tree on every run (translator tie) -/
 /-- the `kernels_smoothed_aggregation` table the models assume equals the one regenerated from the source now -/
